@@ -1,10 +1,15 @@
 use anyhow::ensure;
 
 use crate::field::extension::Extendable;
+use crate::fri::validate_shape::validate_compressed_fri_proof_shape;
 use crate::hash::hash_types::RichField;
+use crate::hash::merkle_tree::MerkleCap;
 use crate::plonk::circuit_data::CommonCircuitData;
 use crate::plonk::config::GenericConfig;
-use crate::plonk::proof::{OpeningSet, Proof, ProofWithPublicInputs};
+use crate::plonk::proof::{
+    CompressedProof, CompressedProofWithPublicInputs, OpeningSet, Proof, ProofChallenges,
+    ProofWithPublicInputs,
+};
 
 pub(crate) fn validate_proof_with_pis_shape<F, C, const D: usize>(
     proof_with_pis: &ProofWithPublicInputs<F, C, D>,
@@ -26,6 +31,48 @@ where
     Ok(())
 }
 
+/// Validates the shape of a compressed proof. Unlike an uncompressed proof, a compressed proof
+/// is indexed by the FRI query indices (which are part of `challenges`) before it reaches the FRI
+/// verifier, so the shape of its opening proof is checked here as well.
+pub(crate) fn validate_compressed_proof_with_pis_shape<F, C, const D: usize>(
+    proof_with_pis: &CompressedProofWithPublicInputs<F, C, D>,
+    challenges: &ProofChallenges<F, D>,
+    common_data: &CommonCircuitData<F, D>,
+) -> anyhow::Result<()>
+where
+    F: RichField + Extendable<D>,
+    C: GenericConfig<D, F = F>,
+{
+    let CompressedProofWithPublicInputs {
+        proof:
+            CompressedProof {
+                wires_cap,
+                plonk_zs_partial_products_cap,
+                quotient_polys_cap,
+                openings,
+                opening_proof,
+            },
+        public_inputs,
+    } = proof_with_pis;
+    validate_caps_and_openings_shape::<F, C, D>(
+        wires_cap,
+        plonk_zs_partial_products_cap,
+        quotient_polys_cap,
+        openings,
+        common_data,
+    )?;
+    ensure!(
+        public_inputs.len() == common_data.num_public_inputs,
+        "Number of public inputs doesn't match circuit data."
+    );
+    validate_compressed_fri_proof_shape::<F, C, D>(
+        opening_proof,
+        &challenges.fri_challenges.fri_query_indices,
+        &common_data.get_fri_instance(challenges.plonk_zeta),
+        &common_data.fri_params,
+    )
+}
+
 fn validate_proof_shape<F, C, const D: usize>(
     proof: &Proof<F, C, D>,
     common_data: &CommonCircuitData<F, D>,
@@ -34,7 +81,6 @@ where
     F: RichField + Extendable<D>,
     C: GenericConfig<D, F = F>,
 {
-    let config = &common_data.config;
     let Proof {
         wires_cap,
         plonk_zs_partial_products_cap,
@@ -44,6 +90,27 @@ where
         // validate_fri_proof_shape), so we ignore it here.
         opening_proof: _,
     } = proof;
+    validate_caps_and_openings_shape::<F, C, D>(
+        wires_cap,
+        plonk_zs_partial_products_cap,
+        quotient_polys_cap,
+        openings,
+        common_data,
+    )
+}
+
+fn validate_caps_and_openings_shape<F, C, const D: usize>(
+    wires_cap: &MerkleCap<F, C::Hasher>,
+    plonk_zs_partial_products_cap: &MerkleCap<F, C::Hasher>,
+    quotient_polys_cap: &MerkleCap<F, C::Hasher>,
+    openings: &OpeningSet<F, D>,
+    common_data: &CommonCircuitData<F, D>,
+) -> anyhow::Result<()>
+where
+    F: RichField + Extendable<D>,
+    C: GenericConfig<D, F = F>,
+{
+    let config = &common_data.config;
     let OpeningSet {
         constants,
         plonk_sigmas,
